@@ -206,7 +206,7 @@ def _r103(ck, prog, cfg):
 def _r104(ck, prog, cfg):
     tr = prog.one(W + "WalRotator::<S>::truncate_before")
     dels = [(b, t) for b, t in tr.calls() if is_callee(t, r"WalStore>::delete$")]
-    ck.floor("R10.4" + _tag(cfg), len(dels), 2)
+    ck.floor("R10.4" + _tag(cfg), len(dels), 1)
     for k, (db, dt) in enumerate(sorted(dels, key=lambda x: x[1]["ln"])):
         gs = lib2.guards(tr, db)
         not_current = False
@@ -233,30 +233,79 @@ def _r104(ck, prog, cfg):
                         not_current = True
             if s.kind == "call" and is_callee(s.term, r"Vec::<streaming::wal::WalEntry>::is_empty$") and lib2.guard_is_true(g):
                 age_ok = True
-            if s.kind == "rv" and s.rv["k"] == "bin" and s.rv["op"] in ("Le", "Lt", "Ge", "Gt"):
-                r = s.rv
+            def cmp_ok(r, positive):
+                """r: a comparison rvalue; positive: the guard holds when r is true.  -> (ok, why)"""
                 a = src_of_operand(tr, r["a"])
                 bsrc = src_of_operand(tr, r["b"])
                 op = r["op"]
-                # normalise to  max_ts <= T
-                cands = []
-                if op == "Le" and lib2.guard_is_true(g):
+                cands = []          # normalise to  max_ts <= T
+                if op == "Le" and positive:
                     cands.append((a, bsrc))
-                if op == "Ge" and lib2.guard_is_true(g):
+                if op == "Ge" and positive:
                     cands.append((bsrc, a))
-                if op == "Gt" and lib2.guard_is_false(g):
+                if op == "Gt" and not positive:
                     cands.append((a, bsrc))
-                if op == "Lt" and lib2.guard_is_false(g):
+                if op == "Lt" and not positive:
                     cands.append((bsrc, a))
+                why_ = "no `max(entry stamps) <= threshold` comparison"
                 for lo, hi in cands:
                     if not (hi.kind == "path" and hi.root == "up_to_timestamp"):
-                        why_age = "upper bound is not the truncation threshold"
+                        why_ = "upper bound is not the truncation threshold"
                         continue
-                    ok_max, why = _is_max_of_entry_stamps(prog, tr, lo)
+                    ok_max, why2 = _is_max_of_entry_stamps(prog, tr, lo)
                     if ok_max:
+                        return True, ""
+                    why_ = why2
+                return False, why_
+            if s.kind == "rv" and s.rv["k"] == "bin" and s.rv["op"] in ("Le", "Lt", "Ge", "Gt"):
+                okc, whyc = cmp_ok(s.rv, lib2.guard_is_true(g))
+                if okc:
+                    age_ok = True
+                else:
+                    why_age = whyc
+            # `let deletable = match newest { None => true, Some(m) => m <= T }; if deletable {..}`: every way of becoming true
+            si = g["si"]
+            if si and si["kind"] == "val" and lib2.guard_is_true(g) and si.get("local") is not None:
+                defs = tr.defs().get(si["local"], [])
+                if len(defs) == 1 and defs[0][2] == "assign" and defs[0][3]["k"] == "use" and "c" not in defs[0][3]["a"]:
+                    pl = op_place(defs[0][3]["a"])
+                    if pl is not None and "p" not in pl:
+                        defs = tr.defs().get(pl["l"], [])
+                if len(defs) >= 2:
+                    all_ok = True
+                    for (db2, di2, kind2, rv2) in defs:
+                        if kind2 != "assign":
+                            all_ok = False
+                            continue
+                        if rv2["k"] == "use" and rv2["a"].get("c", "").strip() in ("const false", "false"):
+                            continue
+                        if rv2["k"] == "use" and rv2["a"].get("c", "").strip() in ("const true", "true"):
+                            # true because the file holds no entry: None edge of max() over the stamps, or is_empty()
+                            okt = False
+                            for g2 in lib2.guards(tr, db2):
+                                s2 = g2["src"]
+                                si2 = g2["si"]
+                                if s2 is None:
+                                    continue
+                                if si2 and si2["kind"] == "discr" and si2["ty"].startswith("std::option::Option<") and g2["value"] in ("0",) and \
+                                        _is_max_of_entry_stamps(prog, tr, s2)[0]:
+                                    okt = True
+                                if s2.kind == "call" and is_callee(s2.term, r"Vec::<streaming::wal::WalEntry>::is_empty$") and lib2.guard_is_true(g2):
+                                    okt = True
+                            if not okt:
+                                all_ok = False
+                                why_age = "the deletion flag can be set without the file being empty or old"
+                            continue
+                        if rv2["k"] == "bin" and rv2["op"] in ("Le", "Lt", "Ge", "Gt"):
+                            okc, whyc = cmp_ok(rv2, True)
+                            if not okc:
+                                all_ok = False
+                                why_age = whyc
+                            continue
+                        all_ok = False
+                        why_age = "the deletion flag has a definition of unrecognised shape"
+                    if all_ok:
                         age_ok = True
-                    else:
-                        why_age = why
         key = "truncate_before:delete#%d%s" % (k, _tag(cfg))
         ck.check(not_current, "R10.4", key + ":not-current",
                  "a WAL file is deleted without first excluding the active file", tr.where(dt["ln"]), detail="name != current file")
